@@ -53,7 +53,9 @@ def o7_9_compaction_edit(mir, tier):
             st = env['$state']
             removed = sorted((simplify(l).as_long(), simplify(n).as_long()) for l, n in st['removed'])
             want_rm = sorted([(L, 10 + i) for i in range(n0)] + [(L + 1, 20 + i) for i in range(n1)])
+            outs_after = ex.deref(env, Ref('$cs'))[mir.field('CompactionState', 'output_files')]
             posts = [('the edit of a compaction does not delete exactly its input files, each at the level it lives in', BoolVal(removed == want_rm)),
+                     ('entering the outputs into the edit loses them from the compaction state (the clean-up can no longer release them from the protected set)', BoolVal(len(outs_after) == k)),
                      ('the edit of a compaction does not add exactly one file per output', BoolVal(len(st['added']) == k))]
             for i, a in enumerate(st['added'][:k]):
                 lvl, num, size, sm, lg = a; o = OUT[i]
